@@ -23,11 +23,10 @@ impl Collector for Coll {
         Vec::new()
     }
 }
-/// a name of concrete length 1 with a symbolic byte out of {a, b, c}
-fn any_name() -> (u8, String) {
-    let k = any_u8();
-    assume(k < 3);
-    (k, unsafe { String::from_utf8_unchecked(vec![b'a' + k]) })
+/// name k of the pool {a, b, c} (built from a literal: lengths and contents stay concrete; the
+/// cases are enumerated by the harnesses, ids and dimension hashes are the symbolic part)
+fn name(k: u8) -> String {
+    String::from(name_str(k))
 }
 fn mk(name: String, id: u64, dim: u64) -> Desc {
     Desc { fq_name: name, help: String::new(), const_label_pairs: Vec::new(), variable_labels: Vec::new(), id, dim_hash: dim }
@@ -45,12 +44,11 @@ fn pre_state(core: &mut RegistryCore) -> Pre {
     assume(ids[0] != ids[1]);
     core.desc_ids.insert(ids[0]);
     core.desc_ids.insert(ids[1]);
-    let (n0, s0) = any_name();
-    let (n1, s1) = any_name();
-    assume(n0 != n1);
+    // names "a" and "b" have a recorded dimension, "c" has none
+    let (n0, n1) = (0u8, 1u8);
     let dims = [any_u64(), any_u64()];
-    core.dim_hashes_by_name.insert(s0, dims[0]);
-    core.dim_hashes_by_name.insert(s1, dims[1]);
+    core.dim_hashes_by_name.insert(name(n0), dims[0]);
+    core.dim_hashes_by_name.insert(name(n1), dims[1]);
     let ckey = ids[0].wrapping_add(ids[1]);
     core.collectors_by_id.insert(ckey, Box::new(Coll { descs: Vec::new() }));
     Pre { ids, names: [n0, n1], dims, ckey }
@@ -66,20 +64,14 @@ fn name_str(k: u8) -> &'static str {
     if k == 0 { "a" } else if k == 1 { "b" } else { "c" }
 }
 
-/// register(collector with ONE symbolic descriptor) from an arbitrary state.
-#[cfg_attr(kani, kani::proof, kani::unwind(6), kani::stub(std::fmt::format, fmt_stub))]
-pub fn c06_register_one_descriptor_step() {
+fn one_desc_case(n: u8) {
     let mut core = RegistryCore::default();
     let p = pre_state(&mut core);
-    let (n, s) = any_name();
     let (id, dim) = (any_u64(), any_u64());
     assume(id != p.ckey); // collector-key collision = 64-bit hash collision, outside the statement
-    let r = core.register(Box::new(Coll { descs: vec![mk(s, id, dim)] }));
+    let r = core.register(Box::new(Coll { descs: vec![mk(name(n), id, dim)] }));
     let id_taken = id == p.ids[0] || id == p.ids[1];
     let dim_conflict = match dim_of(&p, n) { Some(h) => h != dim, None => false };
-    vcover!(id_taken, "c06.one: equal descriptor already registered");
-    vcover!(dim_conflict && !id_taken, "c06.one: dimension disagreement");
-    vcover!(!id_taken && !dim_conflict && dim_of(&p, n).is_none(), "c06.one: new name admitted");
     assert!(r.is_ok() == (!id_taken && !dim_conflict), "C06 registration succeeds exactly when no descriptor equals a registered one and none disagrees in dimension");
     if id_taken && !dim_conflict {
         assert!(matches!(r, Err(Error::AlreadyReg)), "C06 AlreadyReg when an equal descriptor is registered");
@@ -94,26 +86,26 @@ pub fn c06_register_one_descriptor_step() {
     std::mem::forget(r);
     std::mem::forget(core);
 }
-
-/// register(collector with TWO symbolic descriptors) from an arbitrary state: the second
-/// descriptor may be the one that fails after the first was already examined.
+/// register(collector with ONE descriptor, symbolic id and dimension) from an arbitrary state:
+/// under a name with a recorded dimension ("a") and under a new name ("c").
 #[cfg_attr(kani, kani::proof, kani::unwind(6), kani::stub(std::fmt::format, fmt_stub))]
-pub fn c06_register_two_descriptors_step() {
+pub fn c06_register_one_descriptor_step() {
+    one_desc_case(0);
+    one_desc_case(2);
+}
+
+fn two_desc_case(n1: u8, n2: u8) {
     let mut core = RegistryCore::default();
     let p = pre_state(&mut core);
-    let (n1, s1) = any_name();
-    let (n2, s2) = any_name();
     let (i1, d1, i2, d2) = (any_u64(), any_u64(), any_u64(), any_u64());
     // pool: descriptors of one collector are distinct and agree in dimension when they share a name
     assume(i1 != i2);
     assume(n1 != n2 || d1 == d2);
     assume(i1.wrapping_add(i2) != p.ckey);
-    let r = core.register(Box::new(Coll { descs: vec![mk(s1, i1, d1), mk(s2, i2, d2)] }));
+    let r = core.register(Box::new(Coll { descs: vec![mk(name(n1), i1, d1), mk(name(n2), i2, d2)] }));
     let taken = |id: u64| id == p.ids[0] || id == p.ids[1];
     let conflict = |n: u8, d: u64| match dim_of(&p, n) { Some(h) => h != d, None => false };
     let ok = !taken(i1) && !taken(i2) && !conflict(n1, d1) && !conflict(n2, d2);
-    vcover!(!taken(i1) && !conflict(n1, d1) && dim_of(&p, n1).is_none() && conflict(n2, d2), "c06.two: first descriptor fine and new, second refused");
-    vcover!(ok, "c06.two: admitted");
     assert!(r.is_ok() == ok, "C06 registration succeeds exactly when no descriptor equals a registered one and none disagrees in dimension");
     if r.is_err() {
         assert!(state_unchanged(&core, &p), "C06 a failed registration leaves no trace");
@@ -123,6 +115,19 @@ pub fn c06_register_two_descriptors_step() {
     }
     std::mem::forget(r);
     std::mem::forget(core);
+}
+/// register(collector with TWO descriptors) from an arbitrary state: first descriptor under a new
+/// name, second under a name with a recorded dimension (the second may be the one that fails
+/// after the first was already examined).
+#[cfg_attr(kani, kani::proof, kani::unwind(6), kani::stub(std::fmt::format, fmt_stub))]
+pub fn c06_register_two_descriptors_new_then_known() {
+    two_desc_case(2, 1);
+}
+/// register(collector with TWO descriptors): both under known names / both under the same new name.
+#[cfg_attr(kani, kani::proof, kani::unwind(6), kani::stub(std::fmt::format, fmt_stub))]
+pub fn c06_register_two_descriptors_other_shapes() {
+    two_desc_case(0, 1);
+    two_desc_case(2, 2);
 }
 
 /// unregister from an arbitrary state: succeeds exactly for the live collector, whose ids are
@@ -141,7 +146,7 @@ pub fn c06_unregister_step() {
     assert!(r.is_ok() == is_live, "C06 unregister succeeds exactly for a currently registered collector");
     if r.is_ok() {
         assert!(core.collectors_by_id.len() == 0 && core.desc_ids.len() == 0, "C06 its descriptors are free again");
-        let again = core.register(Box::new(Coll { descs: vec![mk(String::from(name_str(p.names[0])), i1, p.dims[0])] }));
+        let again = core.register(Box::new(Coll { descs: vec![mk(name(p.names[0]), i1, p.dims[0])] }));
         assert!(again.is_ok(), "C06 an unregistered collector's descriptor can be registered again");
         std::mem::forget(again);
     } else {
@@ -181,7 +186,8 @@ pub fn c06_same_collector_twice_and_gather() {
 pub fn dispatch(name: &str) -> Option<fn()> {
     Some(match name {
         "c06_register_one_descriptor_step" => c06_register_one_descriptor_step,
-        "c06_register_two_descriptors_step" => c06_register_two_descriptors_step,
+        "c06_register_two_descriptors_new_then_known" => c06_register_two_descriptors_new_then_known,
+        "c06_register_two_descriptors_other_shapes" => c06_register_two_descriptors_other_shapes,
         "c06_unregister_step" => c06_unregister_step,
         "c06_same_collector_twice_and_gather" => c06_same_collector_twice_and_gather,
         _ => return None,
